@@ -34,6 +34,7 @@ def statement_with_else(src, anchor_re):
 
 def main(out_path):
     regions, defs, lits = {}, [], set()
+    problems = []   # shape mismatches with the hand-written model: reported after the file is written
     src = nfc(cp.strip_comments(open(SRC, encoding='utf8').read()))
     # only the body of operator() (the comment block with the textbook formulas is stripped)
     _, body = cp.find_region(src, r'FISTASolver<Conf>::operator\(\)\s*\(')
@@ -81,6 +82,18 @@ def main(out_path):
         raise cp.TranslationError(f'QUB loop body changed shape: {shape} (model expects {expected})')
     regions['fista_qubLoop_shape'] = {'hash': cp.ast_hash([cond] + ss_all)}
 
+    # ---- ∇ψ(x̂) is evaluated after the backtracking loop (at the accepted step) ------------------
+    # Model/Fista.lean `proxStage` = firstStep; qubLoop; withGradHat — pinned here by position.
+    w = re.search(r'while\s*\(\s*curr->L\s*<\s*params\.L_max', body)
+    wend = cp.match_brace(body, body.index('{', w.end()))
+    crit = body.index('calc_error_stop_crit')
+    gh = [m_.start() for m_ in re.finditer(nfc(r'if\s*\(\s*need_grad_ψx̂\s*\)\s*eval_grad_ψx̂\s*\(\s*\*curr\s*\)\s*;'), body)]
+    if len(gh) != 1 or not (wend < gh[0] < crit):
+        problems.append(
+            'eval_grad_ψx̂ is not evaluated (exactly once) between the QUB loop and calc_error_stop_crit: '
+            f'positions {gh}, loop ends at {wend} — ε would use ∇ψ of a rejected x̂ after backtracking')
+    regions['fista_gradhat_after_qub'] = {'hash': cp.ast_hash(cp.parse_statements(body[wend + 1:crit].split('real_t')[0].split('if (no_progress')[0]))}
+
     # ---- real_t t_new = (1 + std::sqrt(1 + 4 * t * t)) / 2; --------------------------------
     st = cp.find_statement(body, r'real_t\s+t_new\s*=')
     ss = cp.parse_statements(st)
@@ -109,6 +122,8 @@ def main(out_path):
     if old != text:
         with open(out_path, 'w') as f:
             f.write(text)
+    if problems:
+        raise cp.TranslationError('; '.join(problems))
     return regions
 
 
